@@ -636,6 +636,25 @@ class PyGen:
                     break
         return ts
 
+    @staticmethod
+    def _paren_tuple(ts):
+        """do these tokens (redundant parentheses and markers aside) form one parenthesised group with a comma at its top level?"""
+        ts = [t for t in ts if t.k != 'M' and t.pair is None]
+        if len(ts) < 2 or ts[0].s != '(' or ts[-1].s != ')':
+            return False
+        d = 0
+        comma = False
+        for i, t in enumerate(ts):
+            if t.k == '(':
+                d += 1
+            elif t.k == ')':
+                d -= 1
+                if d == 0 and i != len(ts) - 1:
+                    return False
+            elif d == 1 and t.k == ',':
+                comma = True
+        return comma
+
     def stmt(self, depth):
         cs = self.cs
         self.spend()
@@ -850,6 +869,12 @@ class PyGen:
                     it += [tk('as')] + self.target(False, 0)
                 it.append(M('withitem', mid, True))
                 items.append(it)
+            if len(items) == 1 and not any(t.s == 'as' and t.k == 'k' for t in items[0]) and self._paren_tuple(items[0]):
+                # `with (a, b):` is a parenthesised list of two items, not one tuple item (and one more pair of
+                # parentheses turns it into the tuple): the generator means the tuple, so it says so with `as`
+                mid_end = items[0].pop()
+                items[0] += [tk('as')] + self.target(False, 0) + [mid_end]
+                self.feat('with_tuple_item_disambiguated')
             if cs.bool(60) and (len(items) > 1 or any(t.s == 'as' for t in items[0])):
                 self.feat('with_parens')
                 hdr = pre + [tk('with'), tk('(')] + self.join(items) + [tk(')')]
